@@ -89,8 +89,19 @@ def get_engine(prop):
     return getattr(mod, fname)
 
 
+def _quiet_numerics():
+    import warnings
+    try:
+        import numpy as np
+        np.seterr(all="ignore")
+    except Exception:
+        pass
+    warnings.filterwarnings("ignore")
+
+
 def execute(prop, tape, env):
     """One run: pure function of (tape, env, code under VERIF_REPO)."""
+    _quiet_numerics()
     fn = get_engine(prop)
     ctx = RunCtx(prop, tape, env)
     limit = RUN_WALL_LIMIT_S.get(prop, RUN_WALL_LIMIT_S["default"])
